@@ -22,6 +22,14 @@ extern "C" {
  *  @{
  */
 
+#ifndef MUSCLE_MAX_MESSAGE_NESTING_DEPTH
+/** MMUnflattenMessage() will refuse (with CB_ERROR) to parse a flattened Message whose sub-Messages are nested more deeply than this.
+  * Without a limit, a small malformed (or malicious) buffer of deeply nested sub-Messages would overflow the parsing thread's stack.
+  * (Same name, meaning and default value as in message/Message.h)
+  */
+# define MUSCLE_MAX_MESSAGE_NESTING_DEPTH 256
+#endif
+
 /** My own little boolean type, since C doesn't come with one built in. */
 typedef char MBool;
 
